@@ -65,8 +65,9 @@ Fixpoint scatter {A} (m : list bool) (res : list A) (dflt : A) : list A :=
 (* the kd-tree query: contract, executable acceptance test, brute-force reference              *)
 Section Query.
   Open Scope Z_scope.
-  (* a / b = (1 + tol)^2 >= 1 : relative slack on squared distances; a = b = 1 is the exact contract *)
-  Variables (a b : Z).
+  (* a / b = (1 + tol)^2 >= 1 : relative slack on squared distances, c >= 0 : absolute slack (binary32 trees:
+     squares of tiny coordinate differences underflow); a = b = 1, c = 0 is the exact contract *)
+  Variables (a b c : Z).
   Variable r2 : Z.                 (* squared radius of influence *)
   Variable d : nat -> Z.           (* squared distance from the query point to source (flat index) *)
   Variable cands : list nat.       (* flat indices of the valid sources, in tree order *)
@@ -75,14 +76,14 @@ Section Query.
      d < r => must be returned, d > r => must not, d = r => either (the libraries' bound is strict). *)
   Definition knn_spec_tol (i : nat) : Prop :=
     ((i < length cands)%nat ->
-        (forall s, In s cands -> b * d (nth i cands 0%nat) <= a * d s) /\ b * d (nth i cands 0%nat) <= a * r2) /\
+        (forall s, In s cands -> b * d (nth i cands 0%nat) <= a * d s + c) /\ b * d (nth i cands 0%nat) <= a * r2 + c) /\
     ((length cands <= i)%nat ->
-        i = length cands /\ forall s, In s cands -> b * r2 <= a * d s).
+        i = length cands /\ forall s, In s cands -> b * r2 <= a * d s + c).
 
   Definition accept (i : nat) : bool :=
     if (i <? length cands)%nat
-    then forallb (fun s => b * d (nth i cands 0%nat) <=? a * d s) cands && (b * d (nth i cands 0%nat) <=? a * r2)
-    else (i =? length cands)%nat && forallb (fun s => b * r2 <=? a * d s) cands.
+    then forallb (fun s => b * d (nth i cands 0%nat) <=? a * d s + c) cands && (b * d (nth i cands 0%nat) <=? a * r2 + c)
+    else (i =? length cands)%nat && forallb (fun s => b * r2 <=? a * d s + c) cands.
 
   (* brute force: first position of the minimum (lower index wins ties), strict cut at the radius *)
   Fixpoint argmin_from (l : list nat) (pos : nat) (best : option (nat * Z)) : option (nat * Z) :=
@@ -102,14 +103,14 @@ Section Query.
     end.
 End Query.
 
-Definition knn_spec := knn_spec_tol 1 1.
+Definition knn_spec := knn_spec_tol 1 1 0.
 
 (* [accept] on the list of distances [map d cands] -- the form the correspondence executes *)
-Definition accept_list (a b r2 : Z) (dl : list Z) (i : nat) : bool :=
+Definition accept_list (a b c r2 : Z) (dl : list Z) (i : nat) : bool :=
   let di := nth i dl 0%Z in
   if (i <? length dl)%nat
-  then forallb (fun ds => b * di <=? a * ds)%Z dl && (b * di <=? a * r2)%Z
-  else (i =? length dl)%nat && forallb (fun ds => b * r2 <=? a * ds)%Z dl.
+  then forallb (fun ds => b * di <=? a * ds + c)%Z dl && (b * di <=? a * r2 + c)%Z
+  else (i =? length dl)%nat && forallb (fun ds => b * r2 <=? a * ds + c)%Z dl.
 
 (* ------------------------------------------------------------------------------------------ *)
 (* the pipeline around the query                                                               *)
